@@ -654,6 +654,27 @@ func (g *Gen) genC14() {
 		}
 	}
 	rec(nil)
+	if g.tier != "thorough" {
+		// quick tier: the structural delimiters alone, two more bytes deep (every back-tracking path of the automaton —
+		// bracketed host, port, parameters, headers re-attributed to the user part by a late '@' — needs 5 or 6 bytes)
+		alpha, maxLen = ":@;?[]a", 6
+		schemes = []string{"sip:", "tel:"}
+		var rec2 func(p []byte)
+		rec2 = func(p []byte) {
+			if len(p) > 4 {
+				for _, s := range schemes {
+					g.c14case(s+string(p), "exhaustive-structural-alphabet")
+				}
+			}
+			if len(p) >= maxLen {
+				return
+			}
+			for _, c := range []byte(alpha) {
+				rec2(append(p, c))
+			}
+		}
+		rec2(nil)
+	}
 	n := g.budget(4000, 200000)
 	for i := 0; i < n; i++ {
 		var u string
@@ -785,8 +806,10 @@ func (g *Gen) genC15() {
 				} else {
 					items = append(items, extra...)
 				}
-				q.Params = strings.Join(items, ";")
-				kind, expectEq = "param-value-differs", false
+				if cand := strings.Join(items, ";"); uniqueNames(cand, ";") { // the added names must not repeat one another
+					q.Params = cand
+					kind, expectEq = "param-value-differs", false
+				}
 			}
 		case 6: // a shared URI header with a different value, lists of equal length
 			if q.HasHeaders && q.Headers != "" {
